@@ -89,6 +89,90 @@ theorem file_eq_bytes (pc maxLen : Nat) (cmd : Bytes) (data : Option Bytes) :
     encodeMsgFile pc maxLen cmd data = encodeMsg pc maxLen cmd data := by
   cases data <;> simp [encodeMsgFile, encodeMsg, fragsOfFile, fragsOf, chunksFile_eq]
 
+/-! ### any fragment size
+
+The code cuts fragments of the largest size the limit allows.  C06 does not ask for that: every statement holds for any
+fragment size from 1 up to `maximum − 6`, which is what the correspondence check uses when an implementation chooses
+another size (it compares with `encodeMsgN` at the size observed). -/
+
+theorem encodeMsg_eq_N (pc maxLen : Nat) (cmd : Bytes) (data : Option Bytes) :
+    encodeMsg pc maxLen cmd data = encodeMsgN pc (effMax maxLen - 6) cmd data := rfl
+
+/-- size bound, non-empty, context, for any fragment size that fits -/
+theorem fragN_size (pc n maxLen : Nat) (cmd : Bytes) (data : Option Bytes) (hle : n + 6 ≤ effMax maxLen) :
+    ∀ f ∈ encodeMsgN pc n cmd data, f.pduLength ≤ effMax maxLen ∧ f.body ≠ [] ∧ f.pc = pc := by
+  intro v hv
+  simp only [encodeMsgN, List.mem_append] at hv
+  rcases hv with hv | hv
+  · have := fragsOf_bound pc 1 3 n cmd v hv
+    exact ⟨by simp only [Frag.pduLength]; omega, this.1, this.2.2.1⟩
+  · cases data with
+    | none => simp at hv
+    | some d =>
+      have := fragsOf_bound pc 0 2 n d v hv
+      exact ⟨by simp only [Frag.pduLength]; omega, this.1, this.2.2.1⟩
+
+/-- order and flags, for any fragment size: The stream is the command fragments followed by the data fragments; each
+part, when non-empty, is a run of not-last fragments (control header 1 resp. 0) ended by exactly one
+last fragment (3 resp. 2), which is the final one of its part. -/
+theorem fragN_shape (pc n : Nat) (cmd : Bytes) (data : Option Bytes) (hn : 0 < n)
+    (hc : cmd ≠ []) :
+    ∃ (ic : List Bytes) (lc : Bytes) (dpart : List Frag),
+      encodeMsgN pc n cmd data = (ic.map (fun b => ⟨pc, 1, b⟩) ++ [⟨pc, 3, lc⟩]) ++ dpart ∧
+      ic.flatten ++ lc = cmd ∧
+      (match data with
+       | none => dpart = []
+       | some d => d = [] ∧ dpart = [] ∨
+           ∃ (idt : List Bytes) (ld : Bytes),
+             dpart = idt.map (fun b => ⟨pc, 0, b⟩) ++ [⟨pc, 2, ld⟩] ∧ idt.flatten ++ ld = d) := by
+  obtain ⟨ic, lc, h1, h2⟩ := fragsOf_shape pc 1 3 n hn cmd hc
+  refine ⟨ic, lc, _, by simp only [encodeMsgN, h1]; rfl, h2, ?_⟩
+  cases data with
+  | none => rfl
+  | some d =>
+    by_cases hd : d = []
+    · left; subst hd; refine ⟨rfl, ?_⟩; simp [fragsOf, chunks]
+    · right
+      obtain ⟨idt, ld, h3, h4⟩ := fragsOf_shape pc 0 2 n hn d hd
+      exact ⟨idt, ld, h3, h4⟩
+
+/-- content, for any fragment size: Concatenating the command fragments gives the command set, concatenating the data
+fragments gives the data set, byte for byte. -/
+theorem fragN_content (pc n : Nat) (cmd : Bytes) (data : Option Bytes) (hn : 0 < n) :
+    (((encodeMsgN pc n cmd data).filter (fun f => f.mch = 1 ∨ f.mch = 3)).map (·.body)).flatten = cmd ∧
+    (((encodeMsgN pc n cmd data).filter (fun f => f.mch = 0 ∨ f.mch = 2)).map (·.body)).flatten
+      = data.getD [] := by
+  have hcm : ∀ f ∈ fragsOf pc 1 3 n cmd, (f.mch = 1 ∨ f.mch = 3) := fun f hf =>
+    (fragsOf_bound pc 1 3 _ cmd f hf).2.2.2
+  have filt_all : ∀ (l : List Frag) (p : Frag → Bool), (∀ f ∈ l, p f = true) → l.filter p = l :=
+    fun l p h => List.filter_eq_self.mpr h
+  have filt_none : ∀ (l : List Frag) (p : Frag → Bool), (∀ f ∈ l, p f = false) → l.filter p = [] :=
+    fun l p h => List.filter_eq_nil_iff.mpr (fun f hf => by simp [h f hf])
+  have c1 : (fragsOf pc 1 3 n cmd).filter (fun f => f.mch = 1 ∨ f.mch = 3)
+      = fragsOf pc 1 3 n cmd :=
+    filt_all _ _ (fun f hf => by simpa using hcm f hf)
+  have c0 : (fragsOf pc 1 3 n cmd).filter (fun f => f.mch = 0 ∨ f.mch = 2) = [] :=
+    filt_none _ _ (fun f hf => by rcases hcm f hf with h | h <;> simp [h])
+  cases data with
+  | none =>
+    simp only [encodeMsgN, List.append_nil, c1, c0, Option.getD_none]
+    exact ⟨fragsOf_content pc 1 3 _ hn cmd, by simp⟩
+  | some d =>
+    have hdm : ∀ f ∈ fragsOf pc 0 2 n d, (f.mch = 0 ∨ f.mch = 2) := fun f hf =>
+      (fragsOf_bound pc 0 2 _ d f hf).2.2.2
+    have d1 : (fragsOf pc 0 2 n d).filter (fun f => f.mch = 1 ∨ f.mch = 3) = [] :=
+      filt_none _ _ (fun f hf => by rcases hdm f hf with h | h <;> simp [h])
+    have d0 : (fragsOf pc 0 2 n d).filter (fun f => f.mch = 0 ∨ f.mch = 2)
+        = fragsOf pc 0 2 n d :=
+      filt_all _ _ (fun f hf => by simpa using hdm f hf)
+    simp only [encodeMsgN, List.filter_append, c1, c0, d1, d0, List.append_nil, List.nil_append,
+      Option.getD_some]
+    exact ⟨fragsOf_content pc 1 3 _ hn cmd, fragsOf_content pc 0 2 _ hn d⟩
+
+theorem fileN_eq_bytes (pc n : Nat) (cmd : Bytes) (data : Option Bytes) :
+    encodeMsgFileN pc n cmd data = encodeMsgN pc n cmd data := by
+  cases data <;> simp [encodeMsgFileN, encodeMsgN, fragsOfFile, fragsOf, chunksFile_eq]
+
 -- non-vacuity: maximum length 8 carries two bytes per fragment
 example : usableMax 8 ∧ ([1, 2, 3] : Bytes) ≠ [] := by simp [usableMax]
 
